@@ -320,6 +320,100 @@ def r6_mglsa(ctx, p):
             ctx.fail("C13-R6", sn.path, "filter size", "Stage::new does not build the MGLSA filter with (stage sections, nmcp delays)", sn.loc())
 
 
+def _is_lsp_frame_coef(e):
+    """gnorm(mc2b(lsp2mgc(LineSpectralPairs::new(spectrum, self.alpha, self.use_log_gain, stage, gamma))))"""
+    names = []
+    x = e
+    while x[0] == "call" and len(x[2]) >= 1 and len(names) < 4:
+        names.append(x[1].rsplit("::", 1)[-1])
+        x = x[2][0] if names[-1] != "new" else x
+        if names[-1] == "new":
+            break
+    if names != ["gnorm", "mc2b", "lsp2mgc", "new"]:
+        return False
+    a = [show(y) for y in x[2]]
+    return x[1] == LSP + "new" and a[:3] == ["spectrum", "self.alpha", "self.use_log_gain"] and a[3:] == ["(self.stage as NonZero).stage", "(self.stage as NonZero).gamma"]
+
+
+def r7_wiring(ctx, p):
+    """R7: the generalised (stage >= 1) branch of Vocoder::synthesize.  The shared wiring clauses
+    (one df call with the branch's own filter / alpha / coefficients, gain, linear interpolation,
+    first-frame and end-of-frame values) are the ones C06-R5 decides for stage zero; here the gain
+    is b[0] itself and the frame's coefficients are gnorm(mc2b(lsp2mgc(..))) with every coefficient
+    but the gain multiplied by gamma - the MGLSA sections expect gamma * b."""
+    from .c06 import stage_wiring, _is_stage_field
+    RULE = "C13-R7"
+    ctx.rule(RULE, "generalised branch of Vocoder::synthesize: b = gnorm(mc2b(lsp2mgc(lsp))) with b[i] *= gamma for i = 1..len (first frame and every frame); per sample x = excitation * b[0], then filter.df(x, self.alpha, b), then b[i] += (b_next[i] - b[i])/fperiod for every i; afterwards b = b_next")
+    vs = stage_wiring(ctx, p, RULE, "NonZero", "vocoder::mglsa::MelGeneralizedLogSpectrumApproximation::df", _is_lsp_frame_coef, False)
+    if vs is None:
+        return
+    eb = ExprBuilder(vs)
+    syms = LoopSyms(None)
+    scaled = {"first": None, "frame": None}
+    for bb, i, st, tgt, root, chain, val in stores(vs, eb):
+        # b[i] *= gamma, written with an index or as a traversal that skips the gain
+        base = rng_ok = desc = None
+        if tgt[0] == "idx" and not (tgt[2][0] == "agg"):
+            base = tgt[1]
+            ip = syms.poly(tgt[2])
+            lv = _single_lv(ip)
+            rng_ok = lv is not None and ip == syms.lv(lv) and syms.info[lv]["dir"] == "up" and syms.info[lv]["start"] == Poly.const(1) and syms.info[lv]["end"] == frozenset([syms.poly(("len", base))])
+            desc = syms.describe(lv) if lv is not None else "?"
+        elif tgt[0] == "field" and tgt[2] == "0" and tgt[1][0] == "variant" and tgt[1][1][0] == "call" and tgt[1][1][1].endswith("::next") and "Skip" in tgt[1][1][1]:
+            sk = tgt[1][1][2][0]
+            if sk[0] == "call" and sk[1].endswith("Iterator::skip") and len(sk[2]) == 2:
+                x_ = sk[2][0]
+                while x_[0] == "call" and len(x_[2]) == 1 and x_[1].rsplit("::", 1)[-1] in ("iter_mut", "into_iter", "deref_mut", "as_mut_slice"):
+                    x_ = x_[2][0]
+                base = x_
+                rng_ok = sk[2][1][0] == "c" and sk[2][1][1] == 1
+                desc = "skip(%s)" % show(sk[2][1])
+        if base is None or not (_is_stage_field(base, "coefficients", "NonZero") or _is_lsp_frame_coef(base)):
+            continue
+        if not (val[0] == "bin" and val[1] == "Mul" and any(canon(x) == canon(tgt) for x in (val[2], val[3]))):
+            continue        # not a scaling of the element by something (the interpolation store is judged above)
+        okv = any(show(x) == "(self.stage as NonZero).gamma" for x in (val[2], val[3]))
+        gs_ = cm.value_guards(vs, eb, bb)
+        which = "first" if any("is_first" in g and not g.startswith("not ") for g in gs_) else "frame"
+        uncond = not [g for g in gs_ if "is_first" not in g]
+        scaled[which] = (bool(rng_ok) and okv and uncond, cm.loc_of(st["span"]), show(val)[:80], desc)
+    # closure form: b.iter_mut().skip(1).for_each(|c| *c *= gamma)
+    from ..expr import resolve_upvars
+    for fbb, ft in vs.calls():
+        fc = ft["callee"]
+        if fc["k"] != "fndef" or not cm.callee_name(fc).endswith("Iterator::for_each") or len(ft["args"]) != 2:
+            continue
+        recv = eb.at(fbb).op(ft["args"][0])
+        clo = eb.op(ft["args"][1])
+        if not (recv[0] == "call" and recv[1].endswith("Iterator::skip") and len(recv[2]) == 2 and clo[0] == "agg" and clo[1].startswith("closure:")):
+            continue
+        x_ = recv[2][0]
+        while x_[0] == "call" and len(x_[2]) == 1 and x_[1].rsplit("::", 1)[-1] in ("iter_mut", "into_iter", "deref_mut", "as_mut_slice"):
+            x_ = x_[2][0]
+        if not (_is_stage_field(x_, "coefficients", "NonZero") or _is_lsp_frame_coef(x_)):
+            continue
+        cb = p.bodies.get(clo[1][len("closure:"):])
+        if cb is None:
+            continue
+        ceb = ExprBuilder(cb)
+        cst = [(t_, resolve_upvars(p, cb, v_), b_) for b_, i_, s_, t_, r_, c_, v_ in stores(cb, ceb) if r_[0] == "arg" and r_[1] == 2]
+        okv = len(cst) == 1 and cst[0][1][0] == "bin" and cst[0][1][1] == "Mul" and any(canon(y) == canon(cst[0][0]) for y in (cst[0][1][2], cst[0][1][3])) \
+            and any(show(y) == "(self.stage as NonZero).gamma" for y in (cst[0][1][2], cst[0][1][3])) and not cb.natural_loops() and not cm.value_guards(cb, ceb, cst[0][2])
+        rng_ok = recv[2][1][0] == "c" and recv[2][1][1] == 1
+        gs_ = cm.value_guards(vs, eb, fbb)
+        which = "first" if any("is_first" in g and not g.startswith("not ") for g in gs_) else "frame"
+        uncond = not [g for g in gs_ if "is_first" not in g]
+        scaled[which] = (bool(rng_ok) and bool(okv) and uncond, cm.loc_of(ft["span"]), "for_each(|c| *c *= ..)", "skip(%s)" % show(recv[2][1]))
+    for which, what in (("first", "first frame"), ("frame", "every frame")):
+        v = scaled[which]
+        if v is None:
+            ctx.fail(RULE, vs.path, "gamma scaling (%s)" % what, "the coefficients 1.. are not multiplied by gamma (%s): the MGLSA sections take gamma*b, so the filter realises a different spectrum" % what, vs.loc())
+        elif not v[0]:
+            ctx.fail(RULE, vs.path, "gamma scaling (%s)" % what, "expected b[i] *= gamma for i in 1..len, unconditionally; found %s over `%s`" % (v[2], v[3]), v[1])
+        else:
+            ctx.ok(RULE, "%s: b[i] *= gamma for i in 1..len" % what, v[1])
+
+
 def r5_stability(ctx, p):
     """R5: the frequencies the filter realises are the given ones unless two of them (or an edge)
     are closer than pi / (4 * len) = pi / (4 (m+1)): every store of check_lsp_stability sits behind a
@@ -897,6 +991,7 @@ def run(ctx):
     ctx.note("not decided: the 0.001 neper law, decay for well-separated frequencies (numerical)")
     r5_stability(ctx, p)
     r6_mglsa(ctx, p)
+    r7_wiring(ctx, p)
     expl = ("Structural clauses of the LSP -> LPC -> MGC conversion: role separation of gain and line spectral frequencies and the order "
             "(the defect of the pinned tree), the second-order-section recursion as index polynomials, the gain / stage scaling / conversion "
             "call, and the stage-gamma plumbing. Necessary conditions of C13; the magnitude-response identity itself is numerical.")
